@@ -66,7 +66,10 @@ fn eval_inner(req: &str) -> Case {
         "collapse" => crate::report::eval_collapse(f[1], f[2], f[3], f[4].parse().unwrap()),
         "solve" => {
             let prop = CURRENT_PROP.with(|p| p.borrow().clone());
-            if f[1] == "bits2" {
+            if f[1] == "blur" {
+                let r = crate::solver::parse_req::<crate::hset::BlurSet8>(&f);
+                crate::solver::eval_to_case(crate::solver::eval_solve(&r), &prop)
+            } else if f[1] == "bits2" {
                 let r = crate::solver::parse_req::<crate::hset::BitSet2>(&f);
                 crate::solver::eval_to_case(crate::solver::eval_solve(&r), &prop)
             } else if f[1] == "bits" {
